@@ -16,6 +16,7 @@ import Tetl.C14.Model
 import Tetl.C14.Spec
 import Tetl.C18.Model
 import Tetl.C18.Spec
+import Tetl.C11.Spec
 namespace Tetl.C13.Driver
 open Tetl Tetl.Proto Tetl.C13
 
@@ -98,11 +99,209 @@ def floatUnary (f : Fmt) (name : String) (b : Nat) : Option (Unit × String) :=
     match FSpec.lrint f 64 b with
     | none => some unspecified
     | some v => some (out3 (fmtEI (Model.lrintFallback f 64 b)) (toString v) (toString v))
+  -- sqrt: the builtin on both paths under GCC (constant evaluation: special-value ladder first, Model.sqrtCt)
+  | "sqrt" => let s := fmtF f (FSpec.sqrt f b); some (out3 (fmtF f (Model.sqrtCt f b)) s s)
   | "signbit" => let s := fmtBool (FSpec.signbit f b); some (out3 s s s)
   | "isnan" => let s := fmtBool (f.isNaN b); some (out3 s s s)
   | "isinf" => let s := fmtBool (f.isInf b); some (out3 s s s)
   | "isfinite" => let s := fmtBool (f.isFinite b); some (out3 s s s)
   | "bit_cast" => let s := hexPad (f.width / 4) b; some (out3 s s s)
+  | _ => none
+
+/-! ## Operations added by the review (T1..T5): the other spellings and overloads of the cmath functions, the
+    `detail` fallbacks GCC never reaches, and one constant-evaluated script per remaining category. -/
+
+/-- a NaN with its sign (`nan+` / `nan-`, payload dropped), anything else as the bit pattern -/
+def fmtS (f : Fmt) (b : Nat) : String :=
+  if f.isNaN b then (if f.sign b == 1 then "nan-" else "nan+") else hexPad (f.width / 4) b
+
+/-- C 7.12.11.1 / IEC 60559 copySign: the magnitude (a NaN stays a NaN) with the sign of `y` -/
+def copysignS (f : Fmt) (x y : Nat) : Nat := f.withSign (f.sign y) (f.absBits x)
+
+/-- The values of the x87 extended format as an interchange-like format: 15 exponent bits, 63 fraction bits (the explicit
+    integer bit dropped; pseudo-denormals and unnormals are not values any operation here produces). -/
+def x80 : Fmt := ⟨15, 63⟩
+
+/-- conversion of a pattern of `f` to the format `g`, to nearest even (exact when `g` is the wider one) -/
+def cvt (f g : Fmt) (b : Nat) : Nat :=
+  if f.isNaN b then g.withSign (f.sign b) g.qnan
+  else if f.isInf b then g.withSign (f.sign b) g.inf
+  else g.withSign (f.sign b) (g.roundUnits (f.mag b) ((g.U : Int) - (f.U : Int)))
+
+/-- `LD(x, d, n)` of harness/c13_ops.hpp: the binary64 value `x`, `d` more units in the 11 low significand bits, negated -/
+def ldArg (x d n : Nat) : Nat :=
+  let a := cvt f64 x80 x
+  let ef := f64.expo x
+  let a := if d != 0 && 64 ≤ ef && ef ≤ 2045 then a + d else a
+  if n % 2 == 1 then x80.neg a else a
+
+/-- `PART(r, p)` of harness/c13_ops.hpp: `p = 0` the value rounded to binary64, `p = 1` the exact rest -/
+def ldPart (p : Nat) (r : Nat) : String :=
+  if x80.isNaN r then (if p == 0 then "nan" else hexPad 16 0)
+  else
+    let hi := cvt x80 f64 r
+    if p == 0 then fmtF f64 hi
+    else if f64.isInf hi then hexPad 16 0
+    else fmtF f64 (cvt x80 f64 (x80.sub r (cvt f64 x80 hi)))
+
+def ldPartE (p : Nat) : Except Err Nat → String
+  | .ok r => ldPart p r
+  | .error _ => "cfail"
+
+/-- `detail::signbit_fallback<long double>` (the branch for `sizeof(T)` other than 4 and 8) since 203fe93:
+    `if (arg != arg or arg == 0) return (bit_cast<uint64_t>(double(arg)) >> 63) != 0; return arg < 0;` -/
+def signbitFallbackLd (a : Nat) : Bool :=
+  if !x80.feq a a || x80.feq a 0 then Model.signbitFallback f64 (cvt x80 f64 a) else x80.lt a 0
+
+def modeOf : String → Option FSpec.Mode
+  | "floor" | "floorl" | "floorf" => some .floor
+  | "ceil" | "ceill" | "ceilf" => some .ceil
+  | "trunc" | "truncl" | "truncf" => some .trunc
+  | "round" | "roundl" | "roundf" => some .round
+  | "rint" | "rintl" | "rintf" => some .rint
+  | _ => none
+
+/-- lexicographic comparison of two unit strings: -1, 0, 1 -/
+def cmpUnits : List Nat → List Nat → Int
+  | [], [] => 0
+  | [], _ :: _ => -1
+  | _ :: _, [] => 1
+  | a :: as, b :: bs => if a < b then -1 else if a > b then 1 else cmpUnits as bs
+
+def posOr99 (l : List Nat) (c : Nat) : Nat := ((l.findIdx? (· == c)).getD 99)
+
+/-- the digits of `n` in base `b`, most significant first (`0` is the single digit 0) -/
+def digitsOf (b : Nat) : Nat → Nat → List Nat → List Nat
+  | 0, _, acc => acc
+  | fuel + 1, n, acc => if n / b == 0 then (n % b) :: acc else digitsOf b fuel (n / b) ((n % b) :: acc)
+
+/-- [charconv.to.chars]: minus sign for a negative value, digits `0..9a..z`, no leading zeros -/
+def toCharsS (x : Int) (b : Nat) : List Nat :=
+  (if x < 0 then [45] else []) ++ (digitsOf b 64 x.natAbs []).map (fun d => if d < 10 then 48 + d else 87 + d)
+
+def ldExtra (l : Line) (name : String) : Option (Unit × String) :=
+  match l.int? "x" with
+  | none => none
+  | some xi =>
+  let x := (xi % ((2 ^ 64 : Nat) : Int)).toNat
+  let d := (l.nat? "d").getD 0
+  let n := (l.nat? "n").getD 0
+  let p := (l.nat? "p").getD 0
+  match name with
+  | "copysign" | "copysignl" =>
+    -- long double has no builtin branch: `copysign_fallback` on both paths
+    match bitsArg f64 l "y" with
+    | some y =>
+      let (a, b) := (ldArg x 0 (n % 2), ldArg y 0 (n / 2 % 2))
+      let show_ (r : Nat) := if x80.isNaN r then fmtS x80 r else fmtF f64 (cvt x80 f64 r)
+      let m := show_ (Model.copysignFallback x80 a b)
+      some (out3 m m (show_ (copysignS x80 a b)))
+    | none => none
+  | _ =>
+  let a := ldArg x d n
+  let b01 (m s : Bool) := some (out3 (fmtBool m) (fmtBool m) (fmtBool s))
+  match name with
+  | "signbit" => b01 (FSpec.signbit x80 a) (FSpec.signbit x80 a)
+  | "isnan" => b01 (x80.isNaN a) (x80.isNaN a)
+  | "isinf" => b01 (x80.isInf a) (x80.isInf a)
+  | "isfinite" => b01 (x80.isFinite a) (x80.isFinite a)
+  | "signbit_fb" | "signbit_fb_negnan" => b01 (signbitFallbackLd a) (FSpec.signbit x80 a)
+  | "lrintl" | "llrintl" | "lrint" | "llrint" =>
+    -- the long double instantiation of rint_fallback is compared with the specification, not modelled
+    match FSpec.lrint x80 64 a with
+    | none => some unspecified
+    | some v => some (out3 (toString v) (toString v) (toString v))
+  | _ =>
+    match modeOf name with
+    | some m => let s := ldPart p (FSpec.roundTo x80 m a); some (out3 s s s)
+    | none => none
+
+def extra (l : Line) (name ty : String) : Option (Unit × String) :=
+  match l.op with
+  | "vec" =>
+    match l.list? "a", l.int? "k", l.int? "j", l.int? "v" with
+    | some a, some k, some j, some v =>
+      let a := if 0 ≤ k ∧ k.toNat < a.length then a.eraseIdx k.toNat else a
+      let a := if 0 ≤ j ∧ j.toNat ≤ a.length ∧ a.length < 8 then a.take j.toNat ++ v :: a.drop j.toNat else a
+      let h : Int := 1000 * a.length + ((List.range a.length).zip a |>.map (fun (i, e) => ((i : Int) + 1) * e)).sum
+      some (out3 (toString h) (toString h) (toString h))
+    | _, _, _, _ => none
+  | "istr" =>
+    match l.natList? "a", l.natList? "b", l.nat? "c" with
+    | some a, some b, some c =>
+      let s := a ++ b
+      let h := posOr99 s c + 100 * s.length
+      some (out3 (toString h) (toString h) (toString h))
+    | _, _, _ => none
+  | "sview" =>
+    match l.natList? "a", l.nat? "c", l.nat? "i", l.nat? "n" with
+    | some a, some c, some i, some n =>
+      let sub := (a.drop i).take n
+      let h := posOr99 sub c + 100 * sub.length + 10000 * (cmpUnits sub a + 1).toNat
+      some (out3 (toString h) (toString h) (toString h))
+    | _, _, _, _ => none
+  | "sortlb" =>
+    match l.list? "a", l.int? "v" with
+    | some a, some v =>
+      let s := a.mergeSort (fun x y => decide (x ≤ y))
+      let idx := (s.filter (fun e => decide (e < v))).length          -- first position whose element is not less than v
+      let h : Int := idx + 100 * ((List.range s.length).zip s |>.map (fun (i, e) => ((i : Int) + 1) * e)).sum
+      some (out3 (toString h) (toString h) (toString h))
+    | _, _ => none
+  | "conv" =>
+    match l.int? "x", l.nat? "b" with
+    | some x, some b =>
+      let M : Nat := 2 ^ 64
+      let h : Nat := (toCharsS x b).foldl (fun (h c : Nat) => (h * 131 + c) % M) 0
+      let h : Nat := (h * 1000003 + (x % (M : Int)).toNat) % M          -- from_chars gives the value back
+      let h := (h * 7 + 3) % M                                     -- whole text consumed, no error on either side
+      some (out3 (toString h) (toString h) (toString h))
+    | _, _ => none
+  | "ymd" =>
+    match l.int? "n" with
+    | some n =>
+      let t := C11.Spec.civil n
+      let h : Int := t.y * 10000 + (t.m : Int) * 100 + (t.d : Int)
+      some (out3 (toString h) (toString h) (toString h))
+    | none => none
+  | _ =>
+  match ty with
+  | "ld" => ldExtra l name
+  | "f32" | "f64" =>
+    match fmtOf ty with
+    | none => none
+    | some f =>
+    match name with
+    | "floorf" | "ceilf" | "truncf" | "roundf" | "rintf" | "lrintf" | "llrintf" =>
+      (bitsArg f l "x").bind (fun b => floatUnary f ((name.dropEnd 1).toString) b)
+    | "signbit_fb" =>
+      (bitsArg f l "x").map (fun b =>
+        let m := fmtBool (Model.signbitFallback f b)
+        out3 m m (fmtBool (FSpec.signbit f b)))
+    | "copysign" | "copysignf" =>
+      -- the sign of a NaN result is observed (T3): `nan+` / `nan-`
+      match bitsArg f l "x", bitsArg f l "y" with
+      | some x, some y =>
+        let s := fmtS f (copysignS f x y)
+        some (out3 (fmtS f (Model.copysignFallback f x y)) s s)
+      | _, _ => none
+    | _ => none
+  | "i32" | "i64" | "i16" | "i8" | "u8" =>
+    match ityOf ty, l.int? "x" with
+    | some t, some xi =>
+      match name with
+      | "byteswap" =>
+        if t.sg || t.w == 8 then
+          let u := (xi % ((2 ^ t.w : Nat) : Int)).toNat
+          let r := C14.Spec.bswap (t.w / 8) u
+          let v : Int := if t.sg && r ≥ 2 ^ (t.w - 1) then (r : Int) - ((2 ^ t.w : Nat) : Int) else r
+          some (out3 (toString v) (toString v) (toString v))
+        else none
+      | "floor" | "ceil" | "trunc" | "round" | "rint" | "lrint" | "llrint" | "isnan" | "isinf" =>
+        -- the integral overloads: the binary64 function of the converted argument (to nearest even beyond 2^53)
+        if t.w == 32 || t.w == 64 then floatUnary f64 name (f64.ofInt xi) else none
+      | _ => none
+    | _, _ => none
   | _ => none
 
 def step (_ : Unit) (l : Line) : Unit × String :=
@@ -145,6 +344,9 @@ def step (_ : Unit) (l : Line) : Unit × String :=
       | _, _ => bad
     | _, _ => bad
   | _ =>
+  match extra l name ty with          -- the operations added by the review (above)
+  | some r => r
+  | none =>
   match fmtOf ty with
   | some f =>
     match name with
@@ -158,16 +360,17 @@ def step (_ : Unit) (l : Line) : Unit × String :=
       match bitsArg f l "x", bitsArg f l "y", bitsArg f l "z" with
       | some x, some y, some z =>
         let r := f.fma x y z
-        let t := Model.fmaTwoStep f x y z
         let anyNaN := f.isNaN x || f.isNaN y || f.isNaN z
-        -- [expr.pre]/4: a result that is not mathematically defined (inf·0, inf−inf) or not representable (overflow of a
-        -- finite computation, in either the fused or the two-step evaluation) is undefined, hence no constant expression
-        let invalid := !anyNaN && (f.isNaN r || f.isNaN t)
-        let overflow := (f.isFinite x && f.isFinite y && f.isFinite z) && (!f.isFinite r || !f.isFinite (f.mul x y) || !f.isFinite t)
+        -- outside the domain (masked): the fused result is not mathematically defined (inf·0, inf−inf: NaN from non-NaN
+        -- arguments) or not representable (overflow of the single rounding of finite arguments).  Everything else is
+        -- inside: in particular arguments whose two-step evaluation x*y+z would overflow while the fused result is
+        -- finite (FLT_MAX·2 − FLT_MAX), and results in the subnormal range.
+        let invalid := !anyNaN && f.isNaN r
+        let overflow := f.isFinite x && f.isFinite y && f.isFinite z && !f.isFinite r
         if invalid || overflow then unspecified
         else
           let s := fmtF f r
-          out3 (fmtF f (Model.fmaTwoStep f x y z)) s s
+          out3 (fmtEF f (Model.fmaCt f x y z)) s s
       | _, _, _ => bad
     | _ =>
       match bitsArg f l "x" with
